@@ -2161,7 +2161,8 @@ impl SubRule {
         if pos.seg_index != 0 { return Ok(false) }
 
         if let Some(v) = var {
-            self.variables.borrow_mut().insert(*v, VarKind::Syllable(word.syllables[pos.syll_index].clone()));
+            // the cursor already stands on the next syllable
+            self.variables.borrow_mut().insert(*v, VarKind::Syllable(word.syllables[cur_syll_index].clone()));
         }
         captures.push(MatchElement::Syllable(cur_syll_index, None));
         *state_index += 1;
